@@ -47,6 +47,13 @@ Definition run_combine (x : bool * nat * nat * list cand * list cand * list (nat
   let e1 := update Nat.eqb (mpol m) (rpol r) (default_entry (mpol m)) (map cv h1) in
   let e2 := update Nat.eqb (mpol m) (rpol r2) (default_entry (mpol m)) (map cv h2) in
   show (combine Nat.eqb (mpol m) (rpol r) e1 e2 (comb_f w (val e1) (val e2))).
+(* result kept under ANY while the second operand holds ALL its tags: WHICH optimal pair is kept depends on the iteration order of
+   a Python set of tags, which the source does not determine -- the value and the number of tags are compared, and the oracle
+   judges the tag itself ("one of the optimal pairs") *)
+Definition run_combine_c (x : bool * nat * nat * list cand * list cand * list (nat * nat * Z)) : ext * list nat :=
+  let '(m, r, r2, h1, h2, w) := x in
+  let out := run_combine x in
+  if Nat.eqb r 1 && Nat.eqb r2 2 then (fst out, [length (snd out)]) else out.
 Definition run_table (x : bool * nat * list (option nat) * list (list nat * list cand) * list (list nat))
   : option (list (option (ext * list nat))) :=
   let '(m, r, d, ops, probes) := x in
@@ -259,12 +266,12 @@ def batches(ctx):
         return True, "combination is the optimum over pairs"
 
     yield Batch(
-        name="combine", header=HEADER, run="run_combine", eqb="show_eqb",
+        name="combine", header=HEADER, run="run_combine_c", eqb="show_eqb",
         ty_in="bool * nat * nat * list cand * list cand * list (nat * nat * Z)", ty_out="ext * list nat",
         cases=ccases, impl=impl_combine,
         enc_in=lambda c: cpair(cbool(c["min"]), cnat(c["ret"]), cnat(c.get("ret2", c["ret"])), clist(enc_cand(x) for x in c["h1"]), clist(enc_cand(x) for x in c["h2"]),
                                clist(cpair(cnat(a), cnat(b), cZ(z)) for a, b, z in c["w"])),
-        enc_out=lambda c, r: enc_show(r),
+        enc_out=lambda c, r: enc_show([r[0], [len(r[1])]] if (c["ret"] == 1 and c.get("ret2", c["ret"]) == 2) else r),
         oracle=oracle_combine,
         nontrivial=lambda c, r: len(r[1]) >= 1 and len(c["h1"]) >= 2 and len(c["h2"]) >= 2,
         exhaustive=False, shard=800,
